@@ -38,7 +38,7 @@ PROP = {
         {"name": "C15fix", "pkg": "./config/", "test": "TestVerifC15Fix"},
     ],
     "driver": "drv_C15",
-    "rule": "event lists: corpus; ALL lists of length<=3 (quick) / <=5 (thorough) over {campaign a, campaign b, renew a, resign a, resign b, "
+    "rule": "event lists: corpus; ALL lists of length<=4 (quick) / <=5 (thorough) over {campaign a, campaign b, renew a, resign a, resign b, "
             "tick ttl/2, tick ttl+1ms, lost-but-applied campaign b}; generated lists of 1-40 events with 1-4 instances (own TCP connection "
             "each, ids incl. empty / 'false' / non-UTF-8), 1-2 election keys, ttl 1..600 s (ttl=0 corner for correspondence only), arbitrary "
             "initial store contents (foreign, own-from-earlier-incarnation, expired), ticks aimed at lease expiry -1/0/+1 ms, lost campaigns "
